@@ -62,6 +62,7 @@ class Conn(object):
     self.max_recv = None
     self.marks = []                 # (s2c offset end, label) for frames the server wrote
     self.delivered_log = []         # (s2c offset reached, instant): when the bytes became readable at the client
+    self.mark_times = []            # instant at which each entry of ``marks`` was written
 
   # ---- server -> client
   def write(self, data, delay=0.0, chunks=None, label=None, close_after=None):
@@ -83,6 +84,7 @@ class Conn(object):
     self.s2c_written += len(data)
     if label is not None:
       self.marks.append((self.s2c_written, label))
+      self.mark_times.append(self.net.env.now)
     self.net.env.emit('srv.write', conn=self.id, n=len(data), label=label, end=self.s2c_written)
     pieces = []
     if chunks:
@@ -103,10 +105,12 @@ class Conn(object):
       self._wire_busy = True
       gevent.spawn(self._pump)
 
-  def arrival_of(self, label):
-    """Instant at which the last byte of the frame written under ``label`` became readable at the client
-    (None: not yet / never).  Pieces of earlier frames that trickle out delay the ones behind them."""
-    end = next((e_ for e_, l_ in self.marks if l_ == label), None)
+  def arrival_of(self, label, not_before=None):
+    """Instant at which the last byte of the frame written under ``label`` (the first such frame written at or
+    after ``not_before``: labels built from recycled ids repeat) became readable at the client (None: not
+    yet / never).  Pieces of earlier frames that trickle out delay the ones behind them."""
+    end = next((m_[0] for m_, t_ in zip(self.marks, self.mark_times)
+                if m_[1] == label and (not_before is None or t_ >= not_before - 1e-9)), None)
     if end is None:
       return None
     return next((t_ for off_, t_ in self.delivered_log if off_ >= end), None)
